@@ -48,6 +48,25 @@ type Net struct {
 	// Headers are sent with every answer (what a responder, a proxy or a CDN in front of it may add: none of it is
 	// signed, none of it is configuration)
 	Headers http.Header
+	// Unclosed counts the answers whose body the client has not closed yet (a body which is never closed keeps its
+	// connection and the transport's goroutines for good)
+	Unclosed      int
+	UnclosedFirst string
+}
+
+type trackedBody struct {
+	io.ReadCloser
+	n      *Net
+	url    string
+	closed bool
+}
+
+func (t *trackedBody) Close() error {
+	if !t.closed {
+		t.closed = true
+		t.n.Unclosed--
+	}
+	return t.ReadCloser.Close()
 }
 
 var ErrRefused = errors.New("dial tcp: connection refused (scripted)")
@@ -109,6 +128,11 @@ func (n *Net) RoundTrip(req *http.Request) (*http.Response, error) {
 	if b.Stream != nil {
 		rc = b.Stream()
 	}
+	n.Unclosed++
+	if n.UnclosedFirst == "" {
+		n.UnclosedFirst = url
+	}
+	rc = &trackedBody{ReadCloser: rc, n: n, url: url}
 	return &http.Response{
 		Status:     fmt.Sprintf("%d scripted", status),
 		StatusCode: status,
